@@ -9,7 +9,7 @@ LEVEL_NOTE = ("Coq theorem C13_holds (every M >= 2, every healthy store, every s
               "file-system atomicity (rename(2), invisibility of a killed process's partial writes to other files) is assumed. Tied to the code by killing the real "
               "binary at every guarded point (verif::point abort) and by SIGKILL at random times while children run, then checking result show, log show, checkpoint show, "
               "the on-disk state against the model, and that a fresh run succeeds; and, without any hook, by killing the run (strace signal injection) at the k-th "
-              "rename / fsync / mkdir / unlinkat / openat / write call of each of its threads for every k until a run gets through (about 70 crash points per history).")
+              "rename / fsync / mkdir / unlinkat / openat / write call of each of its threads for every k until a run gets through, plus - because strace counts per thread and the end of a run may execute on any worker thread - the first calls that name the pointer file, its temporary, the next slot and its result file (-P path); about 80 crash points per history; a kill that lands after the run has recorded itself completely counts as a completed run.")
 TRUSTED = ["Coq 8.16.1 kernel; no axioms", "POSIX rename is atomic; a killed process's partial writes to a new file are invisible to readers of other files",
            "hooks: verif::point call sites (guarded) and the harness's SIGKILL timing", "strace 6.1 (-f -b execve -e inject=<call>:signal=SIGKILL:when=k; counts are per call name and thread); skipped and counted when ptrace is unavailable", "modelled, not verified: the Rust source"]
 RULE = ("M in {2,3} with 1..M+1 completed runs, and M in {10,11} (thorough: 10,11,12,20) with exactly M completed runs so that the crash hits the wrap-around from slot M to slot 1; a checkpoint, then one run killed at each guarded point (slot set-up, before/after the result file, inside the pointer save, "
@@ -152,13 +152,25 @@ def syscall_sweep(ctx, rng, M, n_done, step=1, cap=80):
                 ctx.record({"sweep": "syscall", "M": M}, True, False, False, False, detail={"what": "set-up run failed"}); return
         rc, cp_before, _, _ = vlib.monorail(rr.repo, "checkpoint", "show")
         killed_n, bad, per_name = 0, [], {}
-        for name, k in ((nm, kk) for nm in SWEEP_CALLS for kk in range(1, cap + 1)):
-            if per_name.get(name, {}).get("done") or len(bad) >= 3: continue
-            st_ = per_name.setdefault(name, {"through": 0, "killed": 0, "done": False})
+        # strace counts per thread as well, and the end of a run (result file, pointer) may execute on any worker thread, where those calls
+        # are that thread's first few: they are addressed by PATH instead (-P restricts matching to calls naming that file)
+        out_dir = rr.out_dir()
+        def targeted():
+            for rel in ("tracking/run.json.tmp", "tracking/run.json", "run/@next/result.json.zst", "run/@next"):
+                for nm in ("openat", "rename", "mkdir", "unlinkat", "rmdir"):
+                    for kk in (1, 2, 3): yield (nm, kk, rel)
+        for name, k, rel in [(nm, kk, None) for nm in SWEEP_CALLS for kk in range(1, cap + 1)] + list(targeted()):
+            key = name if rel is None else "%s@%s" % (name, rel)
+            if per_name.get(key, {}).get("done") or len(bad) >= 3: continue
+            st_ = per_name.setdefault(key, {"through": 0, "killed": 0, "done": False})
             if name == "write" and quick_write_skip and k % 2 == 0: continue
+            path_args = []
+            if rel is not None:
+                cur_ptr = rr.pointer(); nxt = (cur_ptr % M) + 1 if isinstance(cur_ptr, int) else 1
+                path_args = ["-P", os.path.join(out_dir, rel.replace("@next", str(nxt)))]
             rr.run_no += 1; rr.clear_traces()
             env = dict(os.environ); env.update(vlib.GIT_ENV); env.update(rr.env())
-            p = subprocess.run([STRACE, "-f", "-b", "execve", "-o", "/dev/null", "-e", "trace=" + name, "-e", "inject=%s:signal=SIGKILL:when=%d" % (name, k),
+            p = subprocess.run([STRACE, "-f", "-b", "execve", "-o", "/dev/null"] + path_args + ["-e", "trace=" + name, "-e", "inject=%s:signal=SIGKILL:when=%d" % (name, k),
                                 vlib.BIN_MONORAIL, "-f", os.path.join(rr.repo, "Monorail.json"), "run", "-c", "build", "test"], cwd=rr.repo, env=env, capture_output=True, timeout=120)
             if p.returncode in (137, -9):
                 killed_n += 1; st_["through"] = 0; st_["killed"] += 1
@@ -166,15 +178,26 @@ def syscall_sweep(ctx, rng, M, n_done, step=1, cap=80):
                 obs, slots, ptr = observe(rr, ids, M)
                 v = ctx.model.call("crash", M, recs, [[], 0], obs)
                 rc2, shown, err2, _ = vlib.monorail(rr.repo, "result", "show")
-                ok_show = (rc2 == 0 and runscen.strip_result(shown) == runscen.strip_result(last_doc)) if last_doc is not None else rc2 != 0
                 rcl, _, _, rawl = vlib.monorail(rr.repo, "log", "show", "--stdout", "--stderr")
                 nums = set(int(x) for x in re.findall(rb"^run=(\d+) ", rawl.stdout, flags=re.M))
-                ok_log = (rcl == 0 and nums <= {last_no}) if last_doc is not None else rcl != 0
                 rc3, cp_after, _, _ = vlib.monorail(rr.repo, "checkpoint", "show")
                 ok_cp = cp_after is not None and cp_before is not None and cp_after.get("checkpoint") == cp_before.get("checkpoint")
+                # the kill may also land AFTER the run has recorded itself completely (e.g. while it prints its report): then it is simply
+                # the latest completed run - the pointer names its slot, the slot holds its result, show / log show return that run
+                cur = slots.get(ptr) if isinstance(ptr, int) else None
+                if cur and cur["result"] not in (None, "corrupt") and cur["logs"] and all(d is None or d == b"" or d.startswith(b"run=%d " % rr.run_no) for d in cur["logs"].values()) \
+                   and any(d and d.startswith(b"run=%d " % rr.run_no) for d in cur["logs"].values()):
+                    recs2 = recs + [[obs[1][ptr][0], obs[1][ptr][1][0]]]
+                    v2 = ctx.model.call("tracking", M, recs2, obs)
+                    if bool(v2[3]) and rc2 == 0 and runscen.strip_result(shown) == runscen.strip_result(cur["result"]) and rcl == 0 and nums <= {rr.run_no} and ok_cp:
+                        recs.append(recs2[-1]); last_doc, last_no = cur["result"], rr.run_no
+                        st_["recorded_fully"] = st_.get("recorded_fully", 0) + 1
+                        continue
+                ok_show = (rc2 == 0 and runscen.strip_result(shown) == runscen.strip_result(last_doc)) if last_doc is not None else rc2 != 0
+                ok_log = (rcl == 0 and nums <= {last_no}) if last_doc is not None else rcl != 0
                 ok = bool(v[3]) and ok_show and ok_log and ok_cp
                 if not (ok and bool(v[2])):
-                    bad.append({"call": name, "k": k, "state_ok": bool(v[3]), "model_agrees": bool(v[2]), "ok_show": ok_show, "ok_log": ok_log, "ok_cp": ok_cp, "pointer": ptr})
+                    bad.append({"call": key, "k": k, "state_ok": bool(v[3]), "model_agrees": bool(v[2]), "ok_show": ok_show, "ok_log": ok_log, "ok_cp": ok_cp, "pointer": ptr})
                 if killed_n % 8 == 0 and not completed_run("-c", "build"):
                     bad.append({"call": name, "k": k, "what": "the run after the crash failed"})
             elif p.returncode in (0, 1):
@@ -188,7 +211,7 @@ def syscall_sweep(ctx, rng, M, n_done, step=1, cap=80):
                 ctx.count("strace_unusable"); ctx.notes.append("strace injection unusable: rc=%s %s" % (p.returncode, p.stderr.decode("utf-8", "replace")[-120:])); return
         ctx.count("syscall_crash_points", killed_n)
         for nm, st_ in per_name.items():
-            if st_["killed"]: ctx.count("crash_points_at_" + nm, st_["killed"])
+            if st_["killed"]: ctx.count("crash_points_at_" + nm.replace("/", "_"), st_["killed"])
         ok = not bad
         ctx.record({"sweep": "syscall", "M": M, "completed_runs": n_done, "step": step}, True, ok and all(b.get("model_agrees", True) for b in bad), ok, killed_n > 0,
                    sample={"crash_points_tried": killed_n, "per_call": {nm: st_["killed"] for nm, st_ in per_name.items() if st_["killed"]}, "M": M},
